@@ -398,8 +398,31 @@ fn consulted_positions(prog: &Program, t: &Ty, out: &mut Vec<(Ty, bool)>) {
 /// `args`: when given, associated types are expanded under this instantiation and every
 /// component of the expansion is recorded as a non-parameter position.
 fn consulted_positions_in(prog: &Program, t: &Ty, args: Option<&[Ty]>, out: &mut std::vec::Vec<(Ty, bool)>) {
+    consulted_positions_opts(prog, t, args, out, false)
+}
+
+/// `open_wrapped`: a parameter under a transparent wrapper (`Box<T>`, `Cow<T>`) is not recognised
+/// by the generator, which then walks the concrete argument: report the components of the closed
+/// argument as non-parameter positions (where another argument's id can coincide).
+fn consulted_positions_opts(prog: &Program, t: &Ty, args: Option<&[Ty]>, out: &mut std::vec::Vec<(Ty, bool)>, open_wrapped: bool) {
     use Ty::*;
-    let consulted_positions = |prog: &Program, t: &Ty, out: &mut std::vec::Vec<(Ty, bool)>| consulted_positions_in(prog, t, args, out);
+    let consulted_positions = |prog: &Program, t: &Ty, out: &mut std::vec::Vec<(Ty, bool)>| consulted_positions_opts(prog, t, args, out, open_wrapped);
+    if open_wrapped {
+        if let (Box(x) | Cow(x), Some(a)) = (t, args) {
+            let mut inner: &Ty = x;
+            while let Box(y) | Cow(y) = inner {
+                inner = y;
+            }
+            if let Param(i) = inner {
+                let closed = expand_aliases(&a[*i]);
+                let mut below = std::vec::Vec::new();
+                consulted_positions_opts(prog, &closed, None, &mut below, false);
+                out.push((t.clone(), true));
+                out.extend(below.into_iter().skip(1).map(|(e, _)| (e, false)));
+                return;
+            }
+        }
+    }
     match t {
         Assoc(..) if args.is_some() => {
             let closed = t.subst(args.unwrap(), prog);
@@ -463,7 +486,54 @@ pub fn cf_source(prog: &Program, sim: &SimOut) -> BTreeMap<u32, Option<String>> 
     out
 }
 
+/// Only the id coincidences (CF-1, CF-2): the instantiations on which an argument id also occurs
+/// at a non-parameter position. Transparent wrappers around a parameter (CF-3) lose the parameter
+/// but never make two shapes look alike, so they are not a reason to expect a conflation.
+pub fn coincidences(prog: &Program, sim: &SimOut) -> std::collections::BTreeSet<u32> {
+    sim.def_insts.iter().filter(|(_, (d, args))| cf_inst_opts(prog, sim, *d, args, true).is_some()).map(|(id, _)| *id).collect()
+}
+
+/// Instantiations of definitions that use a parameter under a transparent wrapper (CF-3).
+pub fn wrapper_insts(prog: &Program, sim: &SimOut) -> std::collections::BTreeSet<u32> {
+    sim.def_insts
+        .iter()
+        .filter(|(_, (d, args))| {
+            // CF-3 is reported before CF-2 per field; ask for "any reason" and for "coincidence only"
+            let any = cf_inst_opts(prog, sim, *d, args, false);
+            any.map(|r| r.starts_with("CF-3")).unwrap_or(false) || wrapper_only(prog, *d)
+        })
+        .map(|(id, _)| *id)
+        .collect()
+}
+
+fn wrapper_only(prog: &Program, d: usize) -> bool {
+    let def = &prog.defs[d];
+    let fields: Vec<&FieldDecl> = match &def.kind {
+        DefKind::Struct(_, fs) => fs.iter().collect(),
+        DefKind::Enum(vs) => vs.iter().flat_map(|v| v.fields.iter()).collect(),
+    };
+    fields.iter().any(|f| {
+        let mut hit = false;
+        f.ty.walk(&mut |t| {
+            if let Ty::Box(x) | Ty::Cow(x) = t {
+                let mut inner: &Ty = x;
+                while let Ty::Box(y) | Ty::Cow(y) = inner {
+                    inner = y;
+                }
+                if matches!(inner, Ty::Param(_)) {
+                    hit = true;
+                }
+            }
+        });
+        hit
+    })
+}
+
 fn cf_inst(prog: &Program, sim: &SimOut, d: usize, args: &[Ty]) -> Option<String> {
+    cf_inst_opts(prog, sim, d, args, false)
+}
+
+fn cf_inst_opts(prog: &Program, sim: &SimOut, d: usize, args: &[Ty], coincidences_only: bool) -> Option<String> {
     let def = &prog.defs[d];
     let id_of = |t: &Ty| sim.ids.get(&identity_key(t)).copied();
     let mut arg_ids: Vec<(usize, u32)> = Vec::new();
@@ -499,7 +569,7 @@ fn cf_inst(prog: &Program, sim: &SimOut, d: usize, args: &[Ty]) -> Option<String
             top = x;
             wrapped = true;
         }
-        if wrapped && matches!(top, Ty::Param(_)) {
+        if wrapped && matches!(top, Ty::Param(_)) && !coincidences_only {
             return Some("CF-3: parameter directly under a transparent wrapper".into());
         }
         // CF-3 at depth: scale-info's identity is ONE step, so the id of a nested `Box<T>` equals
@@ -523,11 +593,11 @@ fn cf_inst(prog: &Program, sim: &SimOut, d: usize, args: &[Ty]) -> Option<String
                 }
             }
         });
-        if deep.is_some() {
+        if deep.is_some() && !coincidences_only {
             return deep;
         }
         let mut pos = Vec::new();
-        consulted_positions_in(prog, &f.ty, Some(args), &mut pos);
+        consulted_positions_opts(prog, &f.ty, Some(args), &mut pos, coincidences_only);
         if f.compact {
             pos.push((Ty::Compact(f.ty.clone().b()), false));
         }
